@@ -23,6 +23,10 @@ stream `classes`: for EVERY class: generated instances from the SCHEMA value spa
                   (NamespaceHelper(default_ns=PM|MSG|EXT) with xsi:type on the root for containers; a default
                   namespace in the ns map, other prefixes, a namespace subset for data types): xsi:type resolves
                   to the class, value read back equal, second write identical, schema-valid.
+                  Round 5 (read direction): every written document is re-serialised independently with the namespace
+                  declaration of each xsi:type value MOVED onto the element that carries it (new local prefix) and
+                  SHADOWED (a prefix the root binds to another namespace re-bound there), kept schema-valid; the
+                  value read from it must equal the value read from the original.
 stream `props`  : single descriptors (update_xml_value / get_py_value_from_node) on small trees vs. the kind model
                   XmlStruct.Model.run_prop (vm_compute).
 stream `update` : the same cases, descriptor.update_from_node on an instance whose member is pre-set, vs.
